@@ -79,6 +79,9 @@ class Trace:
     deadlock: bool = False
     notes: list = field(default_factory=list)
     end_time: float = 0.0
+    # one dict per ctx.wait_for_event CALL a step body made, in call order: what the body asked for (harness-side label of
+    # the wait, type, requirement, timeout, waiter_event uid), when, and how the call ended (got / timeout / suspended)
+    wait_calls: list = field(default_factory=list)
 
 
 class RecordingPolicy:
@@ -398,27 +401,54 @@ async def _interp(run: Run, sdef: dict, ctx: Context, ev: Any, rn: int) -> Any:
             if wid == "per":  # one waiter id per invocation (concurrent invocations of a step do not share a waiter)
                 wid = f"w{(int(uid) % 80) + 10:02d}"
             kw: dict[str, Any] = {}
+            auto = False
             if reqk == "own":
                 # auto-generated waiter id; the invocations differ only in the requirement VALUE (their input's k)
                 reqk = getattr(ev, "k", None)
                 wid = None
+                auto = True
+            elif isinstance(reqk, str) and reqk.startswith("own+"):
+                # ... a further wait of the same invocation: its input's k plus an offset
+                reqk = (getattr(ev, "k", None) or 0) + int(reqk[4:])
+                wid = None
+                auto = True
+            elif isinstance(reqk, str) and reqk.startswith("auto:"):
+                # auto-generated waiter id, literal requirement value: several such waits of one body differ only in that value
+                reqk = int(reqk[5:])
+                wid = None
+                auto = True
+            # position of this wait among the waits of the script (a body with several waits announces each with its own event)
+            widx = sum(1 for a in sdef["script"][: sdef["script"].index(act)] if a[0] == "wait")
             if wid is not None:
                 kw["waiter_id"] = wid
             if reqk is not None:
                 kw["requirements"] = {"k": reqk}
             if wev is not None:
-                kw["waiter_event"] = ET.mk(wev, 500000 + uid * 10 + (int(wid[1:]) if wid else 0), None)
+                if auto and widx > 0:
+                    kw["waiter_event"] = ET.mk(wev, 700000 + uid * 10 + widx, None)
+                else:
+                    kw["waiter_event"] = ET.mk(wev, 500000 + uid * 10 + (int(wid[1:]) if wid else 0), None)
+            label = wid if (wid is not None or not auto) else f"auto{ty}:{reqk!r}"
+            call = {"step": name, "uid": uid, "rn": rn, "label": label, "auto": wid is None, "ty": ty, "k": reqk, "timeout": timeout,
+                    "wev_uid": kw["waiter_event"].uid if wev is not None else None, "wev_ty": wev,
+                    "at_call": len(run.trace.calls), "vtime": asyncio.get_event_loop().time(), "outcome": None}
+            run.trace.wait_calls.append(call)
             try:
                 got = await ctx.wait_for_event(ET.TYPES[ty], timeout=timeout, **kw)
+                call["outcome"] = "got"
+                call["got"] = (ET.TY_ID.get(type(got), -1), getattr(got, "uid", None), getattr(got, "k", None))
                 run.__dict__.setdefault("_last_waited", {}).setdefault(uid, []).append(getattr(got, "k", None))
                 run.trace.steps.append(("waited", name, uid, rn, asyncio.get_event_loop().time(),
-                                        {"wid": wid if (wid is not None or act[2] != "own") else f"auto{ty}:{reqk!r}", "got_uid": got.uid, "got_ty": ET.TY_ID[type(got)], "got_k": got.k,
+                                        {"wid": label, "got_uid": got.uid, "got_ty": ET.TY_ID[type(got)], "got_k": got.k,
                                          "want_ty": ty, "want_k": reqk}))
             except asyncio.TimeoutError:
-                run.trace.steps.append(("wait_timeout", name, uid, rn, asyncio.get_event_loop().time(),
-                                        {"wid": wid if (wid is not None or act[2] != "own") else f"auto{ty}:{reqk!r}"}))
+                call["outcome"] = "timeout"
+                run.trace.steps.append(("wait_timeout", name, uid, rn, asyncio.get_event_loop().time(), {"wid": label}))
                 if len(act) > 6 and act[6] == "swallow":
                     continue
+                raise
+            except BaseException as e:
+                call["outcome"] = "suspended" if type(e).__name__ == "WaitingForEvent" else "raise:" + type(e).__name__
                 raise
         elif op == "store_set":
             await ctx.store.set(act[1], act[2])
